@@ -296,6 +296,10 @@ func (r *Runner) stop(ctx context.Context) bool {
 	if !r.handlingTrap && (r.exit.returning || r.exit.exiting) {
 		return true
 	}
+	if r.breakEnclosing > 0 || r.contnEnclosing > 0 {
+		// A break or continue is unwinding to its loop.
+		return true
+	}
 	if err := ctx.Err(); err != nil {
 		r.exit.fatal(err)
 		return true
@@ -1122,10 +1126,17 @@ func (r *Runner) loopStmtsBroken(ctx context.Context, stmts []*syntax.Stmt) bool
 		r.stmt(ctx, stmt)
 		if r.contnEnclosing > 0 {
 			r.contnEnclosing--
+			if !oldInLoop {
+				// No more enclosing loops; continue the outermost one.
+				r.contnEnclosing = 0
+			}
 			return r.contnEnclosing > 0
 		}
 		if r.breakEnclosing > 0 {
 			r.breakEnclosing--
+			if !oldInLoop {
+				r.breakEnclosing = 0 // no more enclosing loops
+			}
 			return true
 		}
 	}
